@@ -446,6 +446,7 @@ package evaluator
 //@   ensures[C02] case.Type: isType(node, "*parser.TypeNode") && err == nil ==> (exists a_arg Val :: isEv(e.root, as(node, "parser.TypeNode").Argument, current, variables, a_arg) && returns("evaluator.typeName", a_arg, result, err))
 //@   ensures[C02] case.Upper: isType(node, "*parser.UpperNode") && err == nil ==> (exists a_arg Val :: isEv(e.root, as(node, "parser.UpperNode").Argument, current, variables, a_arg) && returns("evaluator.upper", a_arg, result, err))
 //@   ensures[C02 C08] case.Zip: isType(node, "*parser.ZipNode") && err == nil ==> isArr(result) && (forall k Int :: 0 <= k && k < len(as(node, "parser.ZipNode").Arguments) ==> (exists a Val :: isArr(a) && isEv(e.root, as(node, "parser.ZipNode").Arguments[k], current, variables, a) && len(arr(result)) <= len(arr(a))))
+//@   ensures[C02] case.Zip.tuples: isType(node, "*parser.ZipNode") && err == nil ==> isArr(result) && (forall a Int :: 0 <= a && a < len(arr(result)) ==> isArr(arr(result)[a]) && len(arr(arr(result)[a])) == len(as(node, "parser.ZipNode").Arguments) && (forall b Int :: 0 <= b && b < len(as(node, "parser.ZipNode").Arguments) ==> (exists x Val :: isArr(x) && isEv(e.root, as(node, "parser.ZipNode").Arguments[b], current, variables, x) && arr(arr(result)[a])[b] == arr(x)[a])))
 //@   ensures[C02] case.Values: isType(node, "*parser.ValuesNode") && err == nil ==> (exists a_arg Val :: isEv(e.root, as(node, "parser.ValuesNode").Argument, current, variables, a_arg) && returns("evaluator.values", a_arg, result, err))
 
 //@ func evaluator.projectArray
@@ -624,13 +625,19 @@ package evaluator
 //@     invariant len(values) == len(node.Arguments) && fresh(values) && 0 <= count && (iter >= 1 ==> count <= MaxAlloc)
 //@     invariant forall k Int :: 0 <= k && k < iter ==> count <= len(values[k])
 //@     invariant[C02 C08] args: forall k Int :: 0 <= k && k < iter ==> isEv(e.root, node.Arguments[k], current, variables, mkArr(values[k]))
+//@     invariant[C02] exist: forall k Int :: 0 <= k && k < iter ==> allocated(values[k])
 //@   loop 10
 //@     decreases count - i
 //@     invariant 0 <= i && i <= count && len(results) == count && fresh(results) && len(values) == len(node.Arguments) && fresh(values)
 //@     invariant forall k Int :: 0 <= k && k < len(values) ==> count <= len(values[k])
+//@     invariant[C02] tuples: forall a Int :: {results[a]} 0 <= a && a < i ==> isArr(results[a]) && len(arr(results[a])) == len(values) && (forall b Int :: {values[b]} 0 <= b && b < len(values) ==> arr(results[a])[b] == values[b][a])
+//@     invariant[C02] apart: allocated(results) && (forall b Int :: {values[b]} 0 <= b && b < len(values) ==> allocated(values[b]) && ref(values[b]) < ref(results)) && (forall a Int :: {results[a]} 0 <= a && a < i ==> allocated(arr(results[a])) && ref(arr(results[a])) != ref(results))
 //@   loop 11
 //@     invariant 0 <= i && i < count && len(results) == count && fresh(results) && len(result) == len(values) && fresh(result) && len(values) == len(node.Arguments) && fresh(values)
 //@     invariant forall k Int :: 0 <= k && k < len(values) ==> count <= len(values[k])
+//@     invariant[C02] tuples: forall a Int :: {results[a]} 0 <= a && a < i ==> isArr(results[a]) && len(arr(results[a])) == len(values) && (forall b Int :: {values[b]} 0 <= b && b < len(values) ==> arr(results[a])[b] == values[b][a])
+//@     invariant[C02] tuple: forall b Int :: 0 <= b && b < iter ==> result[b] == values[b][i]
+//@     invariant[C02] apart: allocated(results) && (len(values) > 0 ==> allocated(result) && ref(result) != ref(results)) && (forall b Int :: {values[b]} 0 <= b && b < len(values) ==> allocated(values[b]) && ref(values[b]) < ref(results) && ref(values[b]) != ref(result)) && (forall a Int :: {results[a]} 0 <= a && a < i ==> allocated(arr(results[a])) && ref(arr(results[a])) != ref(results) && (len(values) > 0 ==> ref(arr(results[a])) != ref(result)))
 
 //@ func Evaluate
 //@   tags C03 C06
